@@ -74,7 +74,9 @@ Inductive expr :=
 | EIndex (a : expr) (i : Z)                  (* a[i], i >= 0 a literal *)
 | EIdx (a : expr) (i : expr)                 (* a[i], i computed (negative: from the end) *)
 | ESliceTo (a : expr) (k : Z)                (* a[:k]  (k = -1: all but the last; k >= 0: first k) *)
-| ESliceFrom (a : expr) (k : Z).             (* a[k:], k >= 0 *)
+| ESliceFrom (a : expr) (k : Z)              (* a[k:], k >= 0 *)
+| ECompT (k : comp_kind) (targets : list string) (it : expr) (body : expr).
+                                             (* [e for a, b in it]: every element is unpacked (ValueError otherwise) *)
 
 Inductive stmt :=
 | SAssign (targets : list string) (e : expr)     (* x = e ; a, b = e *)
@@ -96,7 +98,15 @@ Inductive stmt :=
        and the arguments and returns the pair (result, new state); t is bound to the result and x is
        rebound to the new state.  The serialiser hoists such calls out of the expression they occur
        in, admitting them only in the position that is evaluated first *)
-| SYield (e : expr).
+| SYield (e : expr)
+| STry (body handler : list stmt)
+    (* try: body except E: handler.  PyLite has ONE exception, so the handler catches everything the
+       body raises, and it runs in the environment the try statement STARTED in: the serialiser admits
+       the form only when that cannot be observed (see harness/translate_pylite.py), and the template
+       states why every exception of the body is of the class E *)
+| SLog (f : string) (args : list expr).
+    (* a call made for its effect on the world (warnings.warn): logged, in order, in the hidden
+       variable "$log" (see [run_gen_log]) *)
     (* yield e: the yielded values are collected, in order, in the hidden variable "$yield"
        (see [run_gen]) *)
 
@@ -414,6 +424,32 @@ Definition all_scalar (l : list val) : bool := forallb is_scalar l.
 Definition unB (l : list val) : option (list bool) :=
   map_opt (fun v => match v with VB b => Some b | _ => None end) l.
 
+(** np.isin on ints: is [v] equal to an element of [r] *)
+Definition isin_val (r : list val) (v : val) : option val :=
+  match v with
+  | VZ x => option_map (fun bs => VB (existsb (fun b => b) bs))
+                       (map_opt (fun y => match y with VZ z => Some (x =? z)%Z | _ => None end) r)
+  | _ => None
+  end.
+
+(** a.sum() of a bool array (True counts 1) or an int array *)
+Definition sum_val (l : list val) : option Z :=
+  fold_right (fun v acc => match v, acc with
+                           | VB b, Some a => Some ((if b then 1 else 0) + a)%Z
+                           | VZ z, Some a => Some (z + a)%Z
+                           | _, _ => None end) (Some 0%Z) l.
+
+(** np.argmin: the first position holding the minimum *)
+Fixpoint argmin_q (l : list Q) : nat :=
+  match l with
+  | [] => O
+  | x :: t =>
+      match t with
+      | [] => O
+      | _ => let j := argmin_q t in if Qle_bool x (nth j t 0) then O else S j
+      end
+  end.
+
 (** builtins of the fragment, on exact numbers *)
 Definition call (f : string) (args : list val) : option (option val) :=   (* None: stuck; Some None: raises *)
   let is := String.eqb f in
@@ -481,6 +517,12 @@ Definition call (f : string) (args : list val) : option (option val) :=   (* Non
     end
   else if is "np.where" then
     match args with
+    | [VA c] =>                       (* np.where(mask): the 1-tuple of the positions of the True entries *)
+        match unB c with
+        | Some bs => Some (Some (VT [VA (map (fun p => VZ (Z.of_nat (fst p)))
+                                           (filter (fun p => snd p) (combine (seq 0 (List.length bs)) bs)))]))
+        | None => None
+        end
     | [VA c; x; y] =>
         let n := List.length c in
         match bc_list n x, bc_list n y with
@@ -520,6 +562,7 @@ Definition call (f : string) (args : list val) : option (option val) :=   (* Non
   else if is "np.arange" then
     match args with
     | [VZ a; VZ b] => Some (Some (VA (map (fun i => VZ (a + Z.of_nat i)) (seq 0 (Z.to_nat (b - a))))))
+    | [VZ n] => Some (Some (VA (map (fun i => VZ (Z.of_nat i)) (seq 0 (Z.to_nat n)))))
     | _ => None
     end
   else if is "isinstance:str" then
@@ -539,7 +582,64 @@ Definition call (f : string) (args : list val) : option (option val) :=   (* Non
                    | None => None end
     | _ => None
     end
+  else if is "np.isin" then           (* element-wise membership of an int array in an int / an int array *)
+    match args with
+    | [VA l; VZ i] => option_map (fun r => Some (VA r)) (map_opt (isin_val [VZ i]) l)
+    | [VA l; VA r] => option_map (fun r => Some (VA r)) (map_opt (isin_val r) l)
+    | _ => None
+    end
+  else if is "meth:sum" then          (* sum of a bool array (the number of True) / of an int array *)
+    match args with
+    | [VA l] => option_map (fun z => Some (VZ z)) (sum_val l)
+    | _ => None
+    end
+  else if is "index[:,]" then         (* a[:, k]: column k of a 2-D array *)
+    match args with
+    | [VA rows; VZ k] =>
+        if (k <? 0)%Z then None else
+        match map_opt (fun r => match r with VA c => Some (nth_val c (Z.to_nat k)) | _ => None end) rows with
+        | Some cells => match map_opt (fun c => c) cells with
+                        | Some col => Some (Some (VA col))
+                        | None => Some None end                          (* IndexError *)
+        | None => None
+        end
+    | _ => None
+    end
+  else if is "np.argmin" then         (* the first position of the minimum *)
+    match args with
+    | [v] => match seq_of v with
+             | Some l => match unQ l with
+                         | Some (x :: t) => Some (Some (VZ (Z.of_nat (argmin_q (x :: t)))))
+                         | Some [] => Some None
+                         | None => None end
+             | None => None end
+    | _ => None
+    end
   else None.
+
+(** unpacking an element into the targets of a comprehension (the same as [bind_pattern] below) *)
+Fixpoint unpack_targets (targets : list string) (vs : list val) (env : list (string * val))
+  : option (list (string * val)) :=
+  match targets, vs with
+  | [], [] => Some env
+  | x :: t, v :: r => unpack_targets t r ((x, v) :: env)
+  | _, _ => None
+  end.
+
+(** a[idx] with an int array as index (fancy indexing): [None] = IndexError, [Some None] = not ints *)
+Fixpoint take_idx (l : list val) (idx : list val) : option (option (list val)) :=
+  match idx with
+  | [] => Some (Some [])
+  | VZ j :: t =>
+      match norm_index (List.length l) j with
+      | Some k => match nth_val l k, take_idx l t with
+                  | Some x, Some (Some r) => Some (Some (x :: r))
+                  | Some _, o => o
+                  | None, _ => None end
+      | None => None
+      end
+  | _ :: _ => Some None
+  end.
 
 Section Eval.
 (** functions of the same module that the fragment may call, given by their
@@ -686,6 +786,12 @@ Fixpoint eval (env : list (string * val)) (e : expr) {struct e} : option (option
                       | None => Some None end                                                     (* IndexError *)
           | None => None
           end
+      | Some (Some (VA l)), Some (Some (VA idx)) =>          (* a[int array]: the elements at those positions *)
+          match take_idx l idx with
+          | Some (Some r) => ret (VA r)
+          | None => Some None                                                                   (* IndexError *)
+          | Some None => None
+          end
       | Some None, _ => Some None
       | Some (Some _), Some None => Some None
       | _, _ => None
@@ -708,6 +814,20 @@ Fixpoint eval (env : list (string * val)) (e : expr) {struct e} : option (option
       | Some (Some (VA l)) => if (0 <=? k)%Z then ret (VA (skipn (Z.to_nat k) l)) else None
       | Some None => Some None
       | _ => None
+      end
+  | ECompT k targets it body =>
+      match eval env it with
+      | Some (Some v) =>
+          match seq_of v with
+          | Some vs => comp_loop k (fun v => match seq_of v with
+                                             | Some xs => match unpack_targets targets xs env with
+                                                          | Some env' => eval env' body
+                                                          | None => Some None end           (* ValueError *)
+                                             | None => None end) vs
+          | None => None
+          end
+      | Some None => Some None
+      | None => None
       end
   end.
 
@@ -888,6 +1008,17 @@ Fixpoint exec (s : stmt) (env : list (string * val)) {struct s} : outcome :=
       | Some (VL _), Some None => Raised
       | _, _ => Stuck
       end
+  | STry body handler =>
+      match run_list body env with
+      | Raised => run_list handler env
+      | o => o
+      end
+  | SLog f args =>
+      match lookup env "$log", eval env (ETuple args) with
+      | Some (VL l), Some (Some (VT vs)) => Normal (("$log", VL (l ++ [VT (VS f :: vs)])) :: env)
+      | Some (VL _), Some None => Raised
+      | _, _ => Stuck
+      end
   end.
 
 Fixpoint exec_list (l : list stmt) (env : list (string * val)) : outcome :=
@@ -952,6 +1083,16 @@ Proof.
   reflexivity.
 Qed.
 
+Lemma exec_STry body handler env :
+  exec (STry body handler) env =
+  match exec_list body env with
+  | Raised => exec_list handler env
+  | o => o
+  end.
+Proof.
+  cbn [exec]. rewrite !run_list_exec_list. reflexivity.
+Qed.
+
 (** calling a function: falling off the end returns None *)
 Definition run (f : func) (args : list val) : outcome :=
   match bind_targets (f_params f) args [] with
@@ -992,6 +1133,20 @@ Definition run_gen (f : func) (args : list val) : outcome :=
       match exec_list (f_body f) env with
       | Normal env' => match lookup env' "$yield" with Some v => Returned v | None => Stuck end
       | Returned _ => Stuck      (* `return` inside a generator: not needed so far, kept outside the fragment *)
+      | o => o
+      end
+  end.
+
+(** the same, with the log of the effect calls: returns (yielded values, log) *)
+Definition run_gen_log (f : func) (args : list val) : outcome :=
+  match bind_targets (f_params f) args [("$yield", VL []); ("$log", VL [])] with
+  | None => Stuck
+  | Some env =>
+      match exec_list (f_body f) env with
+      | Normal env' => match lookup env' "$yield", lookup env' "$log" with
+                       | Some y, Some l => Returned (VT [y; l])
+                       | _, _ => Stuck end
+      | Returned _ => Stuck
       | o => o
       end
   end.
